@@ -25,10 +25,14 @@ conf["suite_passes"] = "FAILED" not in t and "failed" not in t.replace("0 failed
 demo = os.path.join(W, "mutant", "demo.sh")
 if os.path.exists(demo):
     conf["demo_with_change_exit"] = sh("bash mutant/demo.sh", W).returncode
-    sh("git stash -q", W)
+    # revert / restore with the patch itself (the stash is shared by every worktree of the repository)
+    saved = W.rstrip("/") + ".eval.diff"
+    open(saved, "w").write(sh("git diff -- src", W).stdout)
+    sh(f"git apply -R {saved}", W)
     sh("cargo build --offline", W)
     conf["demo_without_change_exit"] = sh("bash mutant/demo.sh", W).returncode
-    sh("git stash pop -q", W)
+    sh(f"git apply {saved}", W)
+    os.remove(saved)
 conf["patch_matches"] = sh("git apply --check --reverse mutant/patch.diff", W).returncode == 0
 ok = conf["suite_passes"] and conf.get("demo_with_change_exit", 1) != 0 and conf.get("demo_without_change_exit", 0) == 0 and conf["patch_matches"]
 print(json.dumps(conf))
